@@ -6,6 +6,7 @@ package main
 import (
 	"flag"
 	"fmt"
+	"go/ast"
 	"go/types"
 	"golang.org/x/tools/go/packages"
 	"os"
@@ -266,6 +267,8 @@ func resetCaches() {
 	predCache = map[*types.Func]*predSummary{}
 	litPredCache = map[types.Object]*predSummary{}
 	helperMemo = map[string]*helperSummary{}
+	accessCache = nil
+	synthFields = map[*ast.SelectorExpr]*types.Var{}
 }
 
 // buildConfigs are the build configurations that could change the set of files
